@@ -9,4 +9,9 @@ mkdir -p bin evidence replays
 # warm: std with and without -race, and the real gocc with hooks on
 ( cd /repo && "$VGO" build -tags verif -o /dev/null . )
 "$VGO" build -race -o /dev/null ./cmd/vcheck >/dev/null 2>&1 || true
+# warm the separate build cache used for scratch modules (generated code): standard library, plain and -race
+SC="${VERIF_GOCACHE:-${VERIF_SCRATCH:-${TMPDIR:-/tmp}}/vgocc-gocache}"
+mkdir -p "$SC"
+GOCACHE="$SC" "$VGO" build std >/dev/null 2>&1 || true
+GOCACHE="$SC" "$VGO" build -race std >/dev/null 2>&1 || true
 echo "setup ok: $("$VGO" version)"
